@@ -826,6 +826,31 @@ def rule_open_flag(db, chk, cfg, rule="OPEN.flag"):
             if not ok:
                 chk.violation(rule, f.qual, "%s|%s" % (st, arg), "in the %s-path branch of %s the builder is called with isOpen = %s: `%s`" % (st, f.qual, arg, canon(x)[:80]),
                               where(x), cfg=cfg)
+        # a builder that takes the open solution through a pointer sends open records down the closed branch when the pointer is null
+        # (`if (solutionOpen && outrec->is_open) ... else <closed>`): sound only while every caller hands it the address of an object
+        unguarded = [(x, arg) for x, st, arg in cl.sites if st == "?" and arg == "false"]
+        ptr_params = [i for i, p0 in enumerate(f.params) if (qt(p0) or "").rstrip().endswith("*")]
+        if ptr_params and unguarded:
+            for g in db.funcs:
+                if g.is_pattern or g.body is None:
+                    continue
+                for c in walk(g.body):
+                    if c.get("kind") not in ("CallExpr", "CXXMemberCallExpr") or db.callee_func(c) is None or db.callee_func(c).id != f.id:
+                        continue
+                    for i in ptr_params:
+                        a = db.call_args(c)
+                        if i >= len(a):
+                            continue
+                        a0 = _u(a[i])
+                        nonnull = a0.get("kind") == "UnaryOperator" and a0.get("opcode") == "&"
+                        n += 1
+                        chk.instance(rule, {"function": g.qual, "call": canon(c)[:70], "open_solution_argument": canon(a0)[:30], "non_null": nonnull, "cfg": cfg}, ok=nonnull)
+                        if not nonnull:
+                            chk.violation(rule, g.qual, "%s|%s" % (f.name, canon(a0)[:20]),
+                                          "`%s` passes `%s` (not the address of an object) as the open solution of %s; with a null pointer %s "
+                                          "sends open output records down its closed branch (%s: `%s`), so open pieces are closed up and added to the "
+                                          "closed solution" % (canon(c)[:70], canon(a0)[:30], f.name, f.name, where(unguarded[0][0]), canon(unguarded[0][0])[:60]),
+                                          where(c), cfg=cfg)
     if n < 4:
         raise AnalysisBroken("OPEN.flag: only %d builder calls found under a test of outrec->is_open" % n)
     return n
